@@ -398,7 +398,7 @@ func runCrashCase(ctx *Ctx, r *rand.Rand, c SDCase, family, prop string, pairsPe
 			if cp.KillUS > 0 {
 				ctx.Out.Stat("timed_kill_after_completion", 1)
 			} else {
-				ctx.Out.Inconclusive(id, prop, "hook-not-reached")
+				ctx.Out.Inconclusive(id, prop, fmt.Sprintf("hook-not-reached: %s hit %d shutdown=%v (the dry run counted that hit; this run ended without it)", cp.Point, cp.Hit, cp.Shutdown))
 				continue
 			}
 		}
